@@ -702,6 +702,16 @@ def tls_oracle(spec):
         for k in range(2):
             same_obs('fit_lin(observables) vs total_least_squares, parameter %d' % k, res.fit_parameters[k], pl[k])
         labs.append('fit_lin')
+        # the abscissae may equally be handed over as an object array or a tuple of observables
+        import numpy as _np
+        for form, xarg in (('ndarray', _np.array(list(c.xo[0]), dtype=object)), ('tuple', tuple(c.xo[0]))):
+            if form == 'tuple' and len(labs) % 2:
+                continue
+            pl2 = fit_exceptions(c, lambda: pe.fits.fit_lin(xarg, c.y, silent=True, **kw2))
+            require(len(pl2) == 2, 'fit_lin must return two observables', len(pl2))
+            for k in range(2):
+                same_obs('fit_lin(%s of observables) vs total_least_squares, parameter %d' % (form, k), res.fit_parameters[k], pl2[k])
+            labs.append('fit_lin:' + form)
     return {'nt': nt, 'cls': labs}
 
 
